@@ -848,6 +848,9 @@ def check_history_property(ctx):
             cases += cross_scheme_cases(ctx, gk)
         if pid in ("C05", "C08", "C14", "C09"):
             cases += builder_reuse_cases(ctx, gk)
+        if pid == "C08":
+            # error kinds at the size limit: ExceedsMaxSize exactly when the result would not fit
+            cases += size_neutral_cases(ctx, gk)[:ctx.scale(30, 300)]
         if pid in ("C05", "C09"):
             recs_d, inputs_d, labels_d = decode_inputs(ctx, gk, ctx.scale(4, 40), 0, ctx.scale(3, 30), ctx.scale(5, 100), 0)
             cases += [["decode " + hx(b)] for b in inputs_d]
